@@ -219,8 +219,8 @@ PROPS = {
         "assumptions": ["logical-clock stamps bracket the cache call (the handler path adds a barrier COUNT that touches no cache state)"],
     },
     "C06": {
-        "lean_modules": ["MocProps.C06", "MocProps.C06Tables", "MocProps.C06Tombs"],
-        "theorem_files": ["MocProps/C06.lean", "MocProps/C06Tables.lean", "MocProps/C06Tombs.lean"],
+        "lean_modules": ["MocProps.C06", "MocProps.C06Tables", "MocProps.C06Tombs", "MocProps.C06Query"],
+        "theorem_files": ["MocProps/C06.lean", "MocProps/C06Tables.lean", "MocProps/C06Tombs.lean", "MocProps/C06Query.lean"],
         "gen_groups": ["Sqlite", "Cache", "Matcher"], "harness_prop": "sqlite", "driver_prop": "sqlite", "stateful": True,
         "monitors": ["answer"],
         "n_quick": 6000, "n_thorough": 60000, "thorough_seeds": 3,
@@ -233,8 +233,10 @@ PROPS = {
                       "joined to that event's payload and carrying exactly its tag rows (tables_after_history), so every event a query returns is an inserted event identical in all seven fields "
                       "(answer_event_is_inserted); every inserted event is settled - the row under its key is itself or one it could not replace (every_event_settled: newest wins); the tombstone "
                       "tables are exactly the tombstones of the inserted deletion requests, so a row is hidden iff some inserted request of the same author names its id or address key, in either "
-                      "arrival order (tombstones_after_history, hidden_iff_request, delIdRows_mem). Not yet proved as one theorem: that the row test equals the NIP-01 predicate on the stored event "
-                      "(ids/authors hex normalisation, tag-row lookup) and hence the whole answer = spec; "
+                      "arrival order (tombstones_after_history, hidden_iff_request, delIdRows_mem). The row test of a filter's sub-select equals 'not hidden and the stored event matches the filter per NIP-01' (rowMatches_eq; tag rows answer #k=v exactly when the event "
+                      "has such a tag: tagRows_mem), hence after ANY history the query is buildable and each filter selects exactly the visible stored events matching it, with its limit "
+                      "(candidates_eq, mem_selected). What remains hand-modelled is SQL itself (that SQLite executes the pinned statements as the table functions say) and the final "
+                      "order/limit/union step, which the spec's judgeAnswer describes; "
                       "Runtime-validated: every answer of the real database is judged, after every batch, both against the model's tables and against the history-based statement "
                       "(newest version per address, deletions by id/address of the same author in either arrival order, per-filter top-limit with ties, merged, distinct, non-increasing, "
                       "seven fields intact).",
